@@ -4,6 +4,8 @@
   states, and invariants for all operation sequences.
 -/
 import DymVerif.Lemmas.PacketsEibc2
+import DymVerif.Lemmas.GenEqEibc
+import DymVerif.Lemmas.PacketsOrders
 namespace DymVerif.C05
 open DymVerif DymVerif.Keys DymVerif.Packets
 
@@ -293,6 +295,15 @@ theorem finalize_pays_fulfiller {s s' : St} {k : Bytes} (h : finalizePacket s k 
 theorem price_identity (amt fee : Int) (mult : Dec) (price : Int) (h : calcPrice amt fee mult = .ok price) :
     price + fee + (mult.mulInt amt).truncateInt = amt ∧ 0 < price := calcPrice_ok h
 
+/-- the same about the function as regenerated from `x/eibc/types/fees.go` on this run -/
+theorem price_identity_gen (amt fee : Int) (mult : Dec) (price : Int)
+    (h : Gen.Eibc.calcPriceWithBridgingFee amt fee mult = some price) :
+    price + fee + (mult.mulInt amt).truncateInt = amt ∧ 0 < price := by
+  rw [GenEqEibc.calcPrice_eq] at h
+  cases hc : calcPrice amt fee mult with
+  | ok p => rw [hc] at h; cases h; exact calcPrice_ok hc
+  | error e => rw [hc] at h; cases h
+
 /-- the order created for a received packet satisfies the identity -/
 theorem price_identity_on_recv {s s' : St} {p : Packet} {m : Memo} (h : eibcOnRecv s p m = .ok s') :
     ∃ o, s' = setOrder s o ∧ o.id = pkey p ∧ o.recipient = p.target ∧
@@ -339,7 +350,7 @@ theorem price_identity_on_refund {s s' : St} {p : Packet} (h : eibcOnRefund s p 
 /-- the identity is preserved by the fee update (bridging fee only for received packets) -/
 theorem price_identity_update {s s' : St} {a : Addr} {id : Bytes} {fee : Int} (h : msgUpdateFee s a id fee = .ok s') :
     ∃ o p price, getOrder s .pending id = some o ∧ getPacket s o.trackingKey = some p ∧
-      s' = setOrder s { o with fee := fee, price := price } ∧ 0 < price ∧ 0 ≤ fee ∧
+      s' = setOrder s { o with fee := fee, price := price, amount := p.amount, withBf := p.ptype == .onRecv } ∧ 0 < price ∧ 0 ≤ fee ∧
       price + fee + (if p.ptype = .onRecv then bridgingFeeOf s p.amount else 0) = p.amount := by
   obtain ⟨hf, o, p, price, ho, _, hp, hc, hs⟩ := msgUpdateFee_ok h
   obtain ⟨h1, h2⟩ := calcPrice_ok hc
@@ -377,6 +388,12 @@ theorem lp_limits {s s' : St} {id : Bytes} {perm : List Nat} (h : msgOnDemand s 
   obtain ⟨o, ho, l0, hl0, s1, s2, _, _, hs⟩ := msgOnDemand_ok h
   obtain ⟨h1, h2, h3, h4, h5, h6, h7⟩ := compatible_spec hl0
   exact ⟨o, l0, s2, (getOutstanding_ok ho).1, h1, h2, h3, h4, h5, h6, h7, hs, by omega⟩
+
+/-- the acceptance test as regenerated from `x/eibc/types/lp.go` on this run is the one the model's
+    `compatibleLPs` applies -/
+theorem lp_accepts_gen (l : LP) (now : Nat) (o : Order) :
+    Gen.Eibc.accepts now o.price l.maxPrice l.spendLimit l.spent l.minFee o.fee l.minAge o.creationHeight = lpAccepts l now o :=
+  GenEqEibc.accepts_eq l now o
 
 /-- a new LP record starts unspent, within its positive limit -/
 theorem lp_created_within_limit {s s' : St} {l : LP} {ok : Bool} (h : msgCreateLp s l ok = .ok s') :
@@ -514,6 +531,47 @@ theorem grant_min_fee_on_real_amount_counterexample :
     ((run f6Init f6Ops).grants.flatMap (·.crit)).map (fun c => grantMinFee c 1000) = [100] := by
   decide
 
+-- ================================================================== invariants over all histories
+
+/-- **order_packet_bijection** — in every reachable state every demand order refers to exactly one
+    stored packet (the one under its tracking key), of the order's status, whose pending key is the
+    order's id; and there is at most one order per (status, id), hence per packet. -/
+theorem order_packet_bijection (s0 : St) (h0 : Inv s0) (ops : List Op) :
+    (∀ o ∈ (run s0 ops).orders, ∃ p, getPacket (run s0 ops) o.trackingKey = some p ∧ p.status = o.status ∧ pendKeyOf p = o.id) ∧
+    OrdersNodup (run s0 ops).orders := by
+  obtain ⟨h4, h5⟩ := inv_run_both ops h0
+  refine ⟨fun o ho => ?_, h5.okeys⟩
+  obtain ⟨p, hp, h1, h2, h3⟩ := h5.link o ho
+  exact ⟨p, h1 ▸ getPacket_of_mem (InvF.keys h4) hp, h2, h3⟩
+
+/-- an order is removed together with its packet: after `DeleteRollappPacket` (epoch clean-up, hard
+    fork) no order of that packet is left -/
+theorem order_removed_with_packet (s : St) (p : Packet) :
+    ∀ o ∈ (deletePacket s p).orders, o.id ≠ pendKeyOf p := by
+  intro o ho hid
+  unfold deletePacket at ho
+  obtain ⟨ho1, hf⟩ := mem_delOrder.mp ho
+  obtain ⟨_, hp⟩ := mem_delOrder.mp ho1
+  cases hs : o.status with
+  | pending => exact hp ⟨hs, hid⟩
+  | finalized => exact hf ⟨hs, hid⟩
+
+/-- **price_identity** as an invariant — in every reachable state, for every order:
+    price + fee + ⌊bridging fee · amount⌋ = amount (the bridging fee only for received packets),
+    price > 0, fee ≥ 0; `amount` is the transfer amount of the packet the price was computed from -/
+theorem price_identity_invariant (s0 : St) (h0 : Inv s0) (ops : List Op) :
+    ∀ o ∈ (run s0 ops).orders, 0 < o.price ∧ 0 ≤ o.fee ∧
+      o.price + o.fee + (if o.withBf then bridgingFeeOf (run s0 ops) o.amount else 0) = o.amount :=
+  fun o ho => (inv_run_both ops h0).2.price o ho
+
+/-- **lp_limits** as an invariant — no on-demand LP record is ever spent beyond its spend limit -/
+theorem lp_spent_within_limit (s0 : St) (h0 : Inv s0) (ops : List Op) :
+    ∀ l ∈ (run s0 ops).lps, l.spent ≤ l.spendLimit :=
+  fun l hl => (inv_run_both ops h0).2.lps l hl
+
+theorem init_ok (n : Nat) (fund : Int) (a b c : Dec) (r0 r1 : Bytes) (ch : List Chan) : Inv (initSt n fund a b c r0 r1 ch) :=
+  inv_init_both n fund a b c r0 r1 ch
+
 -- ================================================================== non-vacuity
 
 def demoOps : List Op :=
@@ -532,5 +590,7 @@ example : (step (run f6Init demoOps) (.updateFee 0 demoKey2 10)).2 = .ok := by d
 example : (step (run f6Init demoOps) (.updateFee 1 demoKey2 10)).2 = .err .unauthorized := by decide
 example : ((step (run f6Init demoOps) (.updateFee 0 demoKey2 10)).1.orders.map (fun o => (o.price, o.fee))) = [(998, 1), (490, 10)] := by decide
 example : (step (run f6Init demoOps) (.fulfillAuth 2 { f6Msg with amount := 1000 })).2 = .err .unauthorized := by decide
+example : (run f6Init demoOps).orders.length = 2 ∧ (run f6Init demoOps).packets.length = 2 := by decide
+example : ((run f6Init demoOps).orders.map (fun o => (o.price, o.fee, o.amount, o.withBf))) = [(998, 1, 1000, true), (495, 5, 500, true)] := by decide
 
 end DymVerif.C05
